@@ -38,7 +38,7 @@ def bank_cfg(rng, kind=None, max_filts=40, gammatone_scope_c07=False):
     lo = 0.0 if rng.random() < 0.15 else float(rng.uniform(0, rate / 4))
     if isinstance(sc, dict) and sc["name"] == "octave":
         lo = max(lo, sc["low_hz"])
-    if rng.random() < 0.7 or rate % 2:
+    if rng.random() < 0.7 or (rate % 2 and kind != "tri"):  # (only the triangular bank documents its default at an odd rate: the Nyquist frequency itself)
         hi = float(rng.uniform(lo + rate / 16, rate // 2))
         if rng.random() < 0.15:
             hi = float(rate // 2)
